@@ -1,5 +1,6 @@
 import Blots.Lemmas.PrattRoundTrip
 import Blots.Lemmas.IdentLemmas
+import Blots.Lemmas.ExprPegLemmas
 /-
   C10 — the precedence table, and the round trip between the printer's parenthesisation
   rule and the Pratt parser.
@@ -22,6 +23,17 @@ import Blots.Lemmas.IdentLemmas
   translator.  `IdentShape w`: nonempty, first character an ASCII letter or `_`, all
   characters ASCII letters, digits or `_`.  `Boundary rest`: `rest` is empty or starts with
   a character that is not one of those.
+
+  Text level (third part): `Blots.ExprPeg` (Model/ExprPeg.lean) is a character-level PEG model
+  of the grammar rule `expression` for the OPERATOR FRAGMENT — terms `bool | null | identifier
+  | number (ASCII digits) | nested_expression`, prefix `-` `!` `not`, postfix `!`, all 26
+  binary operators through `infix_usage` with the layout the grammar admits (rule texts pinned
+  by the translator, operator literals and their order generated).  `exprItems fuel text` is
+  the item sequence pest hands to the Pratt parser, `parseText` the whole pipeline text → tree.
+  `CST` (Lemmas/ExprPegLemmas.lean) are concrete syntax trees: operator trees with every
+  layout string and every parenthesis written out; `canon t` is the one `exprToSource` writes.
+  `Frag t`: `t` is built from binary operators, prefix `-` / `!`, postfix `!` over atoms
+  (non-reserved identifiers, built-in names, `true false null`, integers 0 ≤ n < 10^15).
 -/
 namespace Blots.C10
 open Blots.PrattRT
@@ -287,5 +299,189 @@ example : keyword ["do".toList, "done".toList] "done".toList = none ∧
     keyword ["done".toList, "do".toList] "done".toList = some ("done".toList, []) := by
   decide +kernel
 end names
+
+/-! ### text level: the `expression` rule at character level (operator fragment) -/
+
+section text
+open Blots.ExprPeg
+
+/-- The fuel the driver passes (`fuelFor` = 2·length + 2) never runs out, and a run that
+    succeeds with SOME fuel gives the same answer with every fuel from `fuelFor` upwards:
+    `none` from `exprItems (fuelFor cs) cs` is a genuine "no match". -/
+theorem peg_fuel_suffices (cs : List Char) :
+    (∀ f, fuelFor cs ≤ f → exprR f cs ≠ .out) ∧
+    (∀ f x, exprR f cs = .ok x → ∀ f', fuelFor cs ≤ f' → exprItems f' cs = some x) :=
+  ⟨fun f hf => (fuel_suffices f cs).1 hf, fun _ _ hx => exprItems_of_exprR hx⟩
+
+/-- What the printer writes IS a concrete syntax tree of the fragment: `canon t` has the text
+    `exprToSource t`, the item sequence `items t` of `pratt_roundtrip`, the tree `t`, and is
+    well-formed. -/
+theorem printer_output_is_cst (t : Expr) (h : Frag t) :
+    (canon t).text = (exprToSource t).toList ∧ (canon t).items = items t ∧ (canon t).tree = t ∧
+      (canon t).WF :=
+  ⟨canon_text t h, canon_items t h, canon_tree t h, canon_wf t h⟩
+
+/-- MAIN LEMMA at text level (unbounded depth, structural induction): in front of any `rest`
+    that does not continue a word, and whatever follows (`After`: postfix operators, then the
+    operator tail), the `expression` rule splits the text of a well-formed concrete syntax
+    tree into exactly its items. -/
+theorem cst_text_reaches_tail (c : CST) (h : c.WF) (rest : List Char) (its : List PItem)
+    (r : List Char) (hb : Blots.Ident.Boundary rest) (hk : After rest its r) :
+    ∃ fuel, exprR fuel (c.text ++ rest) = .ok (c.items ++ its, r) :=
+  lex_cst c h.1 h.2 rest its r hb hk
+
+/-- Every well-formed concrete syntax tree — any admissible layout, any number of redundant
+    parentheses — is split by the grammar into its items, nothing left over, and parsed to its
+    abstract tree. -/
+theorem cst_text_roundtrip (c : CST) (h : c.WF) :
+    (∀ fuel, fuelFor c.text ≤ fuel → exprItems fuel c.text = some (c.items, [])) ∧
+    prattParse c.items = some c.tree ∧ parseText (String.ofList c.text) = some c.tree :=
+  ⟨cst_lex c h, cst_pratt c h.1, cst_roundtrip c h⟩
+
+/-- PRINT THEN LEX: the text the printer writes for an operator tree is split by the grammar
+    into exactly the item sequence of `pratt_roundtrip` (printer's parenthesisation: a
+    parenthesised operand is one primary), consuming the whole text. -/
+theorem print_then_lex (t : Expr) (h : Frag t) (fuel : Nat)
+    (hf : fuelFor (exprToSource t).toList ≤ fuel) :
+    exprItems fuel (exprToSource t).toList = some (items t, []) := by
+  have := cst_lex (canon t) (canon_wf t h) fuel (by rw [canon_text t h]; exact hf)
+  rwa [canon_text t h, canon_items t h] at this
+
+/-- TEXT-LEVEL ROUND TRIP: printing any operator tree and reading the text back — PEG
+    recogniser, then Pratt parser — gives the tree. -/
+theorem text_roundtrip (t : Expr) (h : Frag t) : parseText (exprToSource t) = some t := by
+  have := cst_roundtrip (canon t) (canon_wf t h)
+  rwa [canon_text t h, String.ofList_toList, canon_tree t h] at this
+
+/-- LAYOUT INSENSITIVITY: replace every separator the printer wrote — the single blanks around
+    a binary operator, the nothing between a parenthesis and its content — by ANY admissible
+    layout string of that position (`Relayout`: blanks, tabs, line feeds, CR LF; around a
+    symbol operator anything including nothing, except nothing in front of `!=`; in front of a
+    word operator at least one layout atom, behind it at least one blank or tab and no line
+    break): the grammar yields the same items, and the same tree. -/
+theorem layout_insensitive (t : Expr) (h : Frag t) (c : CST) (hr : Relayout t c) :
+    (∀ fuel, fuelFor c.text ≤ fuel → exprItems fuel c.text = some (items t, [])) ∧
+    parseText (String.ofList c.text) = some t := by
+  obtain ⟨hwf, hi, ht⟩ := relayout_wf h hr
+  exact ⟨fun fuel hf => hi ▸ cst_lex c hwf fuel hf, ht ▸ cst_roundtrip c hwf⟩
+
+/-- REDUNDANT PARENTHESES: wrapping any sub-expression (at any depth) of a well-formed text in
+    an extra pair of parentheses, with any layout inside them, gives a well-formed text with
+    the same parsed tree. -/
+theorem redundant_parens (c c' : CST) (h : c.WF) (hw : Wrap c c') :
+    c'.WF ∧ parseText (String.ofList c'.text) = parseText (String.ofList c.text) ∧
+      parseText (String.ofList c.text) = some c.tree := by
+  obtain ⟨ht, _, hs, hl⟩ := wrap_facts hw
+  have hwf' : c'.WF := ⟨hs h.1, hl h.2⟩
+  have h1 := cst_roundtrip c h
+  have h2 := cst_roundtrip c' hwf'
+  rw [ht] at h2
+  exact ⟨hwf', h2.trans h1.symm, h1⟩
+
+/-- … in particular for the printer's output, and repeatedly: any text obtained from
+    `exprToSource t` by re-layout and then any number of extra parentheses parses to `t`. -/
+theorem printed_text_with_extra_parens (t : Expr) (h : Frag t) (c : CST) (hr : Relayout t c) :
+    ∀ cs : List CST, cs ≠ [] → cs.head? = some c →
+      (∀ i, i + 1 < cs.length → Wrap cs[i]! cs[i + 1]!) →
+      ∀ c' ∈ cs, parseText (String.ofList c'.text) = some t := by
+  obtain ⟨hwf, _, ht⟩ := relayout_wf h hr
+  -- every member is well-formed with tree `t`
+  have key : ∀ (cs : List CST) (c0 : CST), c0.WF → c0.tree = t → cs.head? = some c0 →
+      (∀ i, i + 1 < cs.length → Wrap cs[i]! cs[i + 1]!) → ∀ c' ∈ cs, c'.WF ∧ c'.tree = t := by
+    intro cs
+    induction cs with
+    | nil => intro _ _ _ _ _ _ hm; cases hm
+    | cons x xs ih =>
+      intro c0 hw0 ht0 hh hchain c' hm
+      simp only [List.head?_cons, Option.some.injEq] at hh
+      subst hh
+      rcases List.mem_cons.mp hm with rfl | hm
+      · exact ⟨hw0, ht0⟩
+      · cases xs with
+        | nil => cases hm
+        | cons y ys =>
+          have hxy : Wrap x y := by
+            have := hchain 0 (by simp)
+            simpa using this
+          obtain ⟨hty, _, hsy, hly⟩ := wrap_facts hxy
+          apply ih y ⟨hsy hw0.1, hly hw0.2⟩ (hty.trans ht0) rfl _ c' hm
+          intro i hi
+          have := hchain (i + 1) (by simp only [List.length_cons] at hi ⊢; omega)
+          simpa using this
+  intro cs _ hh hchain c' hm
+  obtain ⟨hw', ht'⟩ := key cs c hwf ht hh hchain c' hm
+  exact ht' ▸ cst_roundtrip c' hw'
+
+/-! #### examples (non-vacuity) -/
+
+private abbrev xa : Expr := .ident "a"
+private abbrev xb : Expr := .ident "b"
+private abbrev xc : Expr := .ident "c"
+private abbrev one : Expr := .num ⟨0x3FF0000000000000⟩
+private abbrev n42 : Expr := .num ⟨0x4045000000000000⟩
+
+/-- `^` / `??` nesting: `(a ^ b) ^ (c ?? 42) ^ a` -/
+private abbrev u1 : Expr :=
+  .bin .pow (.bin .pow xa xb) (.bin .pow (.bin .coalesce xc n42) xa)
+example : Frag u1 := by decide +kernel
+example : exprToSource u1 = "(a ^ b) ^ c ?? 42 ^ a" := by decide +kernel
+example : items u1 = [.prim (.bin .pow xa xb), .inf "power", .prim xc, .inf "coalesce", .prim n42,
+    .inf "power", .prim xa] := by rfl
+example : parseText "(a ^ b) ^ c ?? 42 ^ a" = some u1 := text_roundtrip u1 (by decide +kernel)
+/-- … and the model computes it (no theorem involved) -/
+example : parseText "(a ^ b) ^ c ?? 42 ^ a" = some u1 := by rfl
+
+/-- prefix minus over a parenthesised sum, under a postfix `!`, with a word operator:
+    `-(a + 1)! and !true` -/
+private abbrev u2 : Expr :=
+  .bin .nand (.un .negate (.fact (.bin .add xa one))) (.un .not (.bool true))
+example : Frag u2 := by decide +kernel
+example : exprToSource u2 = "-(a + 1)! and !true" := by decide +kernel
+example : parseText "-(a + 1)! and !true" = some u2 := text_roundtrip u2 (by decide +kernel)
+example : exprItems (fuelFor "-(a + 1)! and !true".toList) "-(a + 1)! and !true".toList =
+    some ([.pre "negation", .prim (.bin .add xa one), .postFact, .inf "natural_and", .pre "invert",
+      .prim (.bool true)], []) :=
+  print_then_lex u2 (by decide +kernel) _ (Nat.le_refl _)
+
+/-- a re-layout of `u2`: line break + blanks in front of `and`, a tab behind it, nothing around
+    `+`, layout inside the parentheses:  `-(␉a+1␍␊)!␊  and␉!true` -/
+private abbrev c2 : CST :=
+  .bin .nand
+    (.un .negate (.fact (.paren [.tab] (.bin .add (.atom xa) [] [] (.atom one)) [.crlf])))
+    [.lf, .sp, .sp] [.tab]
+    (.un .not (.atom (.bool true)))
+example : String.ofList c2.text = "-(\ta+1\r\n)!\n  and\t!true" := by decide +kernel
+example : Relayout u2 c2 := ⟨by rfl, ⟨⟨trivial, trivial, by decide +kernel⟩, trivial, by decide +kernel⟩⟩
+example : parseText "-(\ta+1\r\n)!\n  and\t!true" = some u2 :=
+  (layout_insensitive u2 (by decide +kernel) c2
+    ⟨by rfl, ⟨⟨trivial, trivial, by decide +kernel⟩, trivial, by decide +kernel⟩⟩).2
+example : parseText "-(\ta+1\r\n)!\n  and\t!true" = some u2 := by rfl
+
+/-- redundant parentheses around the inner `a` of `u1`'s printed form, and around the whole -/
+example : Wrap (canon u1) (.paren [.sp] (canon u1) []) := .here _ _ _
+example : parseText "( (a ^ b) ^ c ?? 42 ^ a)" = some u1 := by rfl
+example : parseText "((a) ^ ((b))) ^ (c) ?? (( 42 )) ^ a" = some u1 := by rfl
+
+/-- WHAT THE LAYOUT CONDITIONS EXCLUDE, on the model (and on the real parser, see the harness):
+    `!=` directly behind its left operand is the postfix `!` followed by `=`; a line break
+    behind a word operator; a word operator without layout in front. -/
+example : CST.layOk .ne [] [.sp] = false ∧ CST.layOk .ne [.sp] [] = true ∧
+    CST.layOk .nand [.sp] [.lf] = false ∧ CST.layOk .nand [] [.sp] = false ∧
+    CST.layOk .dne [] [] = true := by decide +kernel
+example : parseText "a != b" = some (.bin .ne xa xb) ∧ parseText "a !=b" = some (.bin .ne xa xb) ∧
+    parseText "a!=b" = none ∧ parseText "a! !=b" = some (.bin .ne (.fact xa) xb) := by
+  refine ⟨by rfl, by rfl, by rfl, by rfl⟩
+example : parseText "a and b" = some (.bin .nand xa xb) ∧ parseText "a\nand b" = some (.bin .nand xa xb) ∧
+    parseText "a and\nb" = none ∧ parseText "(a)and b" = none ∧ parseText "a andb" = none := by
+  refine ⟨by rfl, by rfl, by rfl, by rfl, by rfl⟩
+/-- `///` is a comment, not `/` followed by a comment: why comments are left out of `Lay` -/
+example : parseText "a /\nb" = some (.bin .div xa xb) ∧
+    parseText "a / // c\nb" = some (.bin .div xa xb) ∧ parseText "a ///c\nb" = none := by
+  refine ⟨by rfl, by rfl, by rfl⟩
+/-- outside the fragment's atoms: reserved words are not identifiers, `~` has no prefix rule -/
+example : ¬ Frag (.ident "not") ∧ ¬ Frag (.un .invert xa) ∧ ¬ Frag (.num ⟨0xBFF0000000000000⟩) ∧
+    Frag (.builtin "sqrt") ∧ ¬ Frag (.ident "sqrt") := by decide +kernel
+example : parseText "sqrt + not_x" = some (.bin .add (.builtin "sqrt") (.ident "not_x")) := by rfl
+end text
 
 end Blots.C10
